@@ -203,6 +203,8 @@ struct WorkerResult {
     errtail: Vec<String>,
     /// (run index, run seed, last NOTE) of a run that began and never reported
     pending: Option<(u64, u64, Option<Value>)>,
+    /// the watchdog killed the worker because a run exceeded the wall-clock limit
+    abandoned: bool,
 }
 
 fn run_worker(exe: &Path, prop: &str, tier: Tier, seed: u64, start: u64, step: u64, count: u64, secs: u64, gate: bool) -> Result<WorkerResult, String> {
@@ -231,7 +233,31 @@ fn run_worker(exe: &Path, prop: &str, tier: Tier, seed: u64, start: u64, step: u
     let mut lines = Vec::new();
     let mut done = false;
     let mut pending: Option<(u64, u64, Option<Value>)> = None;
+    // watchdog: a run that produces no line for a long wall-clock time (a pathological
+    // world, a deadlock of the harness) is abandoned, never turned into a verdict
+    let last = std::sync::Arc::new(std::sync::Mutex::new(Instant::now()));
+    let finished = std::sync::Arc::new(std::sync::atomic::AtomicBool::new(false));
+    let killed = std::sync::Arc::new(std::sync::atomic::AtomicBool::new(false));
+    {
+        let (last, finished, killed) = (last.clone(), finished.clone(), killed.clone());
+        let pid = child.id() as i32;
+        let limit = std::env::var("VERIF_RUN_WATCHDOG_S").ok().and_then(|s| s.parse().ok()).unwrap_or(300u64);
+        std::thread::spawn(move || loop {
+            std::thread::sleep(std::time::Duration::from_secs(2));
+            if finished.load(std::sync::atomic::Ordering::SeqCst) {
+                return;
+            }
+            if last.lock().unwrap().elapsed().as_secs() > limit {
+                killed.store(true, std::sync::atomic::Ordering::SeqCst);
+                unsafe {
+                    libc::kill(pid, libc::SIGKILL);
+                }
+                return;
+            }
+        });
+    }
     for l in BufReader::new(stdout).lines().map_while(Result::ok) {
+        *last.lock().unwrap() = Instant::now();
         if let Some(rest) = l.strip_prefix("RUN ") {
             if let Ok(v) = serde_json::from_str::<Value>(rest) {
                 lines.push(v);
@@ -251,8 +277,10 @@ fn run_worker(exe: &Path, prop: &str, tier: Tier, seed: u64, start: u64, step: u
         }
     }
     let status = child.wait();
+    finished.store(true, std::sync::atomic::Ordering::SeqCst);
     let ok = status.as_ref().map(|s| s.success()).unwrap_or(false);
-    Ok(WorkerResult { lines, done, ok, status: format!("{status:?}"), errtail: eh.join().unwrap_or_default(), pending })
+    let abandoned = killed.load(std::sync::atomic::Ordering::SeqCst);
+    Ok(WorkerResult { lines, done, ok, status: format!("{status:?}"), errtail: eh.join().unwrap_or_default(), pending, abandoned })
 }
 
 fn spawn_workers(prop: &str, tier: Tier, seed: u64, total: u64, njobs: usize, secs: u64, gate: bool) -> Result<Merged, String> {
@@ -284,6 +312,12 @@ fn spawn_workers(prop: &str, tier: Tier, seed: u64, total: u64, njobs: usize, se
                     break;
                 }
                 match r.pending {
+                    Some((i, _rs, _)) if r.abandoned && respawns < 40 => {
+                        respawns += 1;
+                        println!("warning: run {i} exceeded the wall-clock watchdog and was abandoned (no verdict)");
+                        start = i + step;
+                        left = left.saturating_sub(got + 1);
+                    }
                     Some((i, rs, note)) if respawns < 40 => {
                         respawns += 1;
                         let mut features: Vec<String> = note.as_ref().and_then(|n| n["features"].as_array().map(|a| a.iter().filter_map(|x| x.as_str().map(String::from)).collect())).unwrap_or_default();
